@@ -103,7 +103,7 @@ def rule_r1(F, rep):
         raise kwalk.WalkLimit("parse_expr: state dispatch not found")
     tokens = F.variants(STK)
 
-    def walk(state_variant, payload, tok):
+    def walk(state_variant, payload, tok, peek=()):
         def hook(w, bb, t, env, args):
             n = callee_name(t) or ""
             if n == "<%s>::eat_simple" % PARSER:
@@ -111,8 +111,15 @@ def rule_r1(F, rep):
                 if isinstance(a, tuple) and a[0] == "var" and a[2] == tok and not env.get("#eaten"):
                     env["#eaten"] = 1
                     return ("var", OPTION, "Some")
+                if isinstance(a, tuple) and a[0] == "var" and a[2] in peek and env.get("#eaten") and not env.get("#eaten2"):
+                    env["#eaten2"] = 1
+                    return ("var", OPTION, "Some")
                 return ("var", OPTION, "None")
             if n == "<%s>::peek_simple" % PARSER:
+                a = args[1]
+                off = args[2] if len(args) > 2 else None
+                if isinstance(a, tuple) and a[0] == "var" and a[2] in peek and off == 0:
+                    return 1
                 return 0
             return None
 
@@ -123,6 +130,11 @@ def rule_r1(F, rep):
             if rv["k"] == "agg" and rv["ak"] == "adt" and rv["adt"] == SI and rv["v"] in ("BinaryRhs", "Unary"):
                 vals = [w.val(env, x) for x in rv["xs"]]
                 return ("stack", rv["v"], tuple(v[2] if isinstance(v, tuple) and v[0] == "var" else "?" for v in vals))
+            if rv["k"] == "agg" and rv["ak"] == "adt" and rv["adt"] == ST and peek:
+                vals = [w.val(env, x) for x in rv["xs"]]
+                return ("state", rv["v"], tuple(v[2] if isinstance(v, tuple) and v[0] == "var" else "?" for v in vals))
+            if rv["k"] == "agg" and rv["ak"] == "adt" and rv["adt"].endswith("ast::ExprKind") and peek:
+                return ("node", rv["v"])
             return None
 
         def on_term(w, bb, t, env):
@@ -169,6 +181,28 @@ def rule_r1(F, rep):
                               "(operator, continuation level, right operand parsed via next_state(level))"
                               % (k, tok, sorted(map(str, res)), sorted(map(str, exp))), pe.loc)
     rep.floor(R, n_rows, 10 * 50, "level x token rows")
+    # `e in super` (super not followed by `.` or `[`): the finished node is the left operand of the *same* level again,
+    # so further comparison operators chain after it like after any other operand
+    for k in kinds:
+        outs = walk("BinaryRhs", {0: ("var", BK, k)}, "In", peek=("Super",))
+        res = set()
+        for kind, marks, ret in outs:
+            if kind.startswith("diverge"):
+                continue
+            nodes = tuple(m[1] for m in marks if m[0] == "node" and m[1] == "InSuper")
+            sts = tuple((m[1], m[2][0] if m[2] else "?") for m in marks if m[0] == "state")
+            stk = tuple((m[2][0], m[2][2]) for m in marks if m[0] == "stack" and m[1] == "BinaryRhs")
+            res.add((nodes, sts[-1:] if nodes else (), stk if not nodes else ()))
+        if k == "OrdCmp":
+            exp = {(("InSuper",), (("BinaryRhs", "OrdCmp"),), ())}
+        else:
+            exp = {((), (), ())}
+        ok = res == exp
+        rep.ob(R, "in-super|%s" % k, ok, {"level": k, "result": sorted(map(str, res))} if k == "OrdCmp" else None)
+        if not ok:
+            rep.violation(R, "parse_expr|BinaryRhs|%s|in-super" % k,
+                          "at level %s, `e in super` yields %s; expected %s (an InSuper node that stays the left operand "
+                          "of the comparison level, so `a in super < b` keeps parsing)" % (k, sorted(map(str, res)), sorted(map(str, exp))), pe.loc)
     for tok in tokens:
         outs = walk("Unary", {}, tok)
         res = set()
